@@ -91,6 +91,13 @@ theorem addMonths_int_valid (d : Date) (k : Int) (hv : d.valid) (h : 0 ≤ month
   have := monthOf_range (monthToId d + k)
   simp only; omega
 
+/-- … and the DAY is determined for every start date, month end or not: the elapsed fraction of the start month carried
+to the target month, rounded half to even (`Spec.scaledDay`) -/
+theorem addMonths_int_day (d : Date) (k : Int) (hv : d.valid) (h : 0 ≤ monthToId d + k) :
+    addMonths d (k : Rat) = ⟨1970 + (monthToId d + k) / 12, ((monthToId d + k) % 12).toNat + 1,
+      (Spec.scaledDay d (monthToId d + k)).toNat⟩ :=
+  addMonths_int_day_form d k hv h
+
 /-- D8 for integer offsets: a date that is not a month end, moved into a month before 1970, lands
 exactly one month late -/
 theorem addMonths_int_pre1970 (d : Date) (k : Int) (hv : d.valid) (hne : d.isMonthEnd = false)
@@ -303,6 +310,20 @@ theorem spec_intShift (d : Date) (k : Int) (hv : d.valid) (h : 0 ≤ monthToId d
   · simp
   · simp [(addMonths_monthEnd d k hme).1]
 
+theorem spec_intShiftDay (d : Date) (k : Int) (hv : d.valid) (h : 0 ≤ monthToId d + k) :
+    Spec.intShiftDayOk d k (addMonths d (k : Rat)) = true := by
+  unfold Spec.intShiftDayOk
+  simp only []
+  rw [← addMonths_int_day d k hv h]
+  simp
+
+/-- the inverse law read through a cell: its month lag added to its period end is its evaluation date, for every
+evaluation date from 1970 on and for every month-end evaluation date (`addMonths_devLag_iff`) -/
+theorem spec_cellLagInverse (c : Cell) (he : c.ev.valid) (h : 1970 ≤ c.ev.y ∨ c.ev.isMonthEnd = true) :
+    Spec.cellLagInverseOk c.ev (addMonths c.pe (c.devLag .month)) = true := by
+  have := (addMonths_devLag_iff c.pe c.ev he).mpr h
+  simp [Spec.cellLagInverseOk, Cell.devLag, calculateDevLag, this]
+
 /-- month ends: in every year -/
 theorem spec_monthEndShift (d : Date) (k : Int) (he : d.isMonthEnd) :
     Spec.monthEndShiftOk d k (addMonths d (k : Rat)) = true := by
@@ -352,6 +373,19 @@ example : addMonths ⟨2021, 1, 15⟩ ((1 : Int) : Rat) = ⟨2021, 2, 14⟩ ∧ 
   decide +kernel
 
 /-! ### 7. the `date.max` sentinel (date_utils.py:36-40, 58-59): `calculateDevLagExt`, `addMonthsExt` -/
+
+/-- the day rule on a leap February: 2024-02-15 plus twelve months is 2025-02-14 (15/29 of 28 days = 14.48), not the 15th;
+2023-01-30 plus one month is 2023-02-27 (30/31 of 28 = 27.1) -/
+example : addMonths ⟨2024, 2, 15⟩ ((12 : Int) : Rat) = ⟨2025, 2, 14⟩ ∧ Spec.intShiftDayOk ⟨2024, 2, 15⟩ 12 ⟨2025, 2, 14⟩ = true ∧
+    Spec.intShiftDayOk ⟨2024, 2, 15⟩ 12 ⟨2025, 2, 15⟩ = false ∧ Spec.intShiftDayOk ⟨2023, 1, 30⟩ 1 ⟨2023, 2, 27⟩ = true := by
+  decide +kernel
+
+/-- a cell that starts on the 1st and ends mid-month, evaluated at a month end: the lag is NOT a whole number and only
+the fractional lag leads back to the evaluation date -/
+example : devLagMonths ⟨2020, 1, 15⟩ ⟨2020, 3, 31⟩ = 2 + 16 / 31 ∧
+    Spec.cellLagInverseOk ⟨2020, 3, 31⟩ (addMonths ⟨2020, 1, 15⟩ (devLagMonths ⟨2020, 1, 15⟩ ⟨2020, 3, 31⟩)) = true ∧
+    Spec.cellLagInverseOk ⟨2020, 3, 31⟩ (addMonths ⟨2020, 1, 15⟩ 2) = false := by
+  decide +kernel
 
 /-- below `date.max` the extended function is the finite one behind the unit dispatch -/
 theorem calculateDevLagExt_fin (pe ev : Date) (u : String) (h : ev ≠ Date.max) :
